@@ -30,16 +30,16 @@ KNOWN_TEXT = {
             'still collecting into that context: same use after return as F4, without any deadline',
 }
 # The variant of RpcOoo.tla that IS the code.  When the repair of F4 lands in /repo: set this to 'patched' and delete 'F4' below.
-AS_WRITTEN = 'asis'
+AS_WRITTEN = 'patched'       # F4 repaired by fix: d05c116
 # Findings met by this check that are not (yet) listed in known-findings.json; each is tolerated only through its KF switch and
 # signature.  C11b needs a stream whose writev returns after the peer has answered; the scenario is only run while it is listed.
-PROVISIONAL = {'F4', 'C11b'}
+PROVISIONAL = set()          # C11b is listed open (F29) in known-findings.json under its own id
 
 
 def tolerated(ctx):
     if 'VERIF_C11_TOLERATE' in os.environ:      # self-tests (e.g. a scratch tree with the proposed repair): explicit list, may be empty
         return {k for k in os.environ['VERIF_C11_TOLERATE'].split(',') if k}
-    listed = {f['id'] for f in ctx.kf.get('open', []) if f.get('property') == 'C11' and f.get('id') in KNOWN_TEXT}
+    listed = {f.get('alias', f['id']) for f in ctx.kf.get('open', []) if f.get('property') == 'C11' and f.get('alias', f.get('id')) in KNOWN_TEXT}
     return set(PROVISIONAL) | listed
 
 
